@@ -366,6 +366,9 @@ func (p *idp) mint(ans *AnsSpec, grant string, lg *login, old *rtRec) (map[strin
 	if class == "expired" {
 		ts.Exp = d.unix(now - 10)
 	}
+	if ans.Big {
+		ts.Groups = 300
+	}
 	// audience
 	audOK := true
 	switch class {
@@ -500,6 +503,9 @@ func (p *idp) mint(ans *AnsSpec, grant string, lg *login, old *rtRec) (map[strin
 		}
 	} else if ans.RT {
 		newRT(n)
+	}
+	if ans.Big {
+		doc["x_long_member"] = strings.Repeat("abcdefghijkl", 1000)
 	}
 	if ans.Extra {
 		doc["scope"] = "openid profile"
